@@ -2,49 +2,51 @@
 // Every function hammers one shared _Atomic object and appends what it observed to a per-thread log.
 #include <stdatomic.h>
 
+// OBJ is the lvalue that is operated on: the pointed-to object itself, or (member variant) a member of its enclosing struct
+#define OBJ (*p)
 #define DEFINE(T, S, AT)                                                                       \
   void w_addassign_##S(AT *p, long n, unsigned long *log) {                          \
-    for (long i = 0; i < n; i++) log[i] = (*p += 1);                                        \
+    for (long i = 0; i < n; i++) log[i] = (OBJ += 1);                                        \
   }                                                                                         \
   void w_preinc_##S(AT *p, long n, unsigned long *log) {                             \
-    for (long i = 0; i < n; i++) log[i] = ++*p;                                             \
+    for (long i = 0; i < n; i++) log[i] = ++OBJ;                                             \
   }                                                                                         \
   void w_postinc_##S(AT *p, long n, unsigned long *log) {                            \
-    for (long i = 0; i < n; i++) log[i] = (*p)++;                                           \
+    for (long i = 0; i < n; i++) log[i] = OBJ++;                                           \
   }                                                                                         \
   void w_subassign_##S(AT *p, long n, unsigned long *log) {                          \
-    for (long i = 0; i < n; i++) log[i] = (*p -= 1);                                        \
+    for (long i = 0; i < n; i++) log[i] = (OBJ -= 1);                                        \
   }                                                                                         \
   void w_fetchadd_##S(AT *p, long n, unsigned long *log) {                           \
-    for (long i = 0; i < n; i++) log[i] = atomic_fetch_add(p, 1);                           \
+    for (long i = 0; i < n; i++) log[i] = atomic_fetch_add(&OBJ, 1);                           \
   }                                                                                         \
   void w_fetchsub_##S(AT *p, long n, unsigned long *log) {                           \
-    for (long i = 0; i < n; i++) log[i] = atomic_fetch_sub(p, 1);                           \
+    for (long i = 0; i < n; i++) log[i] = atomic_fetch_sub(&OBJ, 1);                           \
   }                                                                                         \
   void w_mulodd_##S(AT *p, long n, unsigned long *log) {                             \
-    for (long i = 0; i < n; i++) log[i] = (*p *= 3);                                        \
+    for (long i = 0; i < n; i++) log[i] = (OBJ *= 3);                                        \
   }                                                                                         \
   void w_xor_##S(AT *p, long n, unsigned long *log, unsigned long mask) {            \
-    for (long i = 0; i < n; i++) log[i] = (*p ^= (T)mask);                                  \
+    for (long i = 0; i < n; i++) log[i] = (OBJ ^= (T)mask);                                  \
   }                                                                                         \
   void w_orand_##S(AT *p, long n, unsigned long *log, unsigned long bit) {           \
     for (long i = 0; i < n; i++) {                                                          \
-      log[2 * i] = atomic_fetch_or(p, (T)bit);                                              \
-      log[2 * i + 1] = atomic_fetch_and(p, (T)~bit);                                        \
+      log[2 * i] = atomic_fetch_or(&OBJ, (T)bit);                                              \
+      log[2 * i + 1] = atomic_fetch_and(&OBJ, (T)~bit);                                        \
     }                                                                                       \
   }                                                                                         \
   void w_exchange_##S(AT *p, long n, unsigned long *log, unsigned long first) {      \
-    for (long i = 0; i < n; i++) log[i] = atomic_exchange(p, (T)(first + i));               \
+    for (long i = 0; i < n; i++) log[i] = atomic_exchange(&OBJ, (T)(first + i));               \
   }                                                                                         \
   /* explicit compare-exchange loop: log[3k] = expected passed, log[3k+1] = value found on failure / new on success, log[3k+2] = success */ \
   long w_casloop_##S(AT *p, long n, unsigned long *log, long cap) {                  \
     long k = 0;                                                                             \
-    T old = atomic_load(p);                                                                 \
+    T old = atomic_load(&OBJ);                                                                 \
     for (long i = 0; i < n; i++) {                                                          \
       for (;;) {                                                                            \
         T expected = old;                                                                   \
         T desired = expected + 1;                                                           \
-        _Bool ok = atomic_compare_exchange_strong(p, &old, desired);                        \
+        _Bool ok = atomic_compare_exchange_strong(&OBJ, &old, desired);                        \
         if (k < cap) { log[3 * k] = expected; log[3 * k + 1] = ok ? desired : old; log[3 * k + 2] = ok; k++; } \
         if (ok) { old = desired; break; }                                                   \
       }                                                                                     \
@@ -52,7 +54,7 @@
     return k;                                                                               \
   }                                                                                         \
   void w_shift_##S(AT *p, long n, unsigned long *log) {                              \
-    for (long i = 0; i < n; i++) { log[2 * i] = (*p <<= 1); log[2 * i + 1] = (*p |= 1); }   \
+    for (long i = 0; i < n; i++) { log[2 * i] = (OBJ <<= 1); log[2 * i + 1] = (OBJ |= 1); }   \
   }
 
 // every spelling of an atomic type is used for one width variant
@@ -64,6 +66,41 @@ DEFINE(unsigned long, u64, atomic_ulong)
 DEFINE(signed char, i8, _Atomic(signed char))
 DEFINE(long, i64, td_atomic_long)
 
+// member variant: the atomic object is reached as a struct member (s.m op= v, q->m++)
+struct BoxM { char pad[3]; _Atomic unsigned m; long tail; };
+#undef OBJ
+#define OBJ (((struct BoxM *)((char *)p - (unsigned long)&((struct BoxM *)0)->m))->m)
+DEFINE(unsigned, m32, _Atomic unsigned)
+#undef OBJ
+#define OBJ (*p)
+
+// pointer variant: an atomic pointer object (pointer += n, pointer++); the families that are not defined for pointers reuse the 64-bit integer workers
+typedef unsigned char *bytep;
+void w_addassign_p64(_Atomic(bytep) *p, long n, unsigned long *log) { for (long i = 0; i < n; i++) log[i] = (unsigned long)(*p += 1); }
+void w_preinc_p64(_Atomic(bytep) *p, long n, unsigned long *log) { for (long i = 0; i < n; i++) log[i] = (unsigned long)++*p; }
+void w_postinc_p64(_Atomic(bytep) *p, long n, unsigned long *log) { for (long i = 0; i < n; i++) log[i] = (unsigned long)(*p)++; }
+void w_subassign_p64(_Atomic(bytep) *p, long n, unsigned long *log) { for (long i = 0; i < n; i++) log[i] = (unsigned long)(*p -= 1); }
+void w_fetchadd_p64(void *p, long n, unsigned long *log) { w_fetchadd_u64(p, n, log); }
+void w_fetchsub_p64(void *p, long n, unsigned long *log) { w_fetchsub_u64(p, n, log); }
+void w_mulodd_p64(void *p, long n, unsigned long *log) { w_mulodd_u64(p, n, log); }
+void w_xor_p64(void *p, long n, unsigned long *log, unsigned long mask) { w_xor_u64(p, n, log, mask); }
+void w_orand_p64(void *p, long n, unsigned long *log, unsigned long bit) { w_orand_u64(p, n, log, bit); }
+void w_exchange_p64(_Atomic(bytep) *p, long n, unsigned long *log, unsigned long first) { for (long i = 0; i < n; i++) log[i] = (unsigned long)atomic_exchange(p, (bytep)(first + i)); }
+long w_casloop_p64(_Atomic(bytep) *p, long n, unsigned long *log, long cap) {
+  long k = 0;
+  bytep old = atomic_load(p);
+  for (long i = 0; i < n; i++) {
+    for (;;) {
+      bytep expected = old;
+      bytep desired = expected + 1;
+      _Bool ok = atomic_compare_exchange_strong(p, &old, desired);
+      if (k < cap) { log[3 * k] = (unsigned long)expected; log[3 * k + 1] = (unsigned long)(ok ? desired : old); log[3 * k + 2] = ok; k++; }
+      if (ok) { old = desired; break; }
+    }
+  }
+  return k;
+}
+
 // the object itself in static storage, defined by the compiler under test
 _Atomic unsigned char s_u8;
 _Atomic unsigned short s_u16;
@@ -71,6 +108,8 @@ _Atomic unsigned int s_u32;
 _Atomic unsigned long s_u64;
 _Atomic signed char s_i8;
 _Atomic long s_i64;
+static struct BoxM s_box;
+static _Atomic(bytep) s_p64;
 void *static_object(int which) {
   switch (which) {
   case 0: return &s_u8;
@@ -78,6 +117,8 @@ void *static_object(int which) {
   case 2: return &s_u32;
   case 3: return &s_u64;
   case 4: return &s_i8;
+  case 6: return &s_box.m;
+  case 7: return &s_p64;
   default: return &s_i64;
   }
 }
@@ -86,7 +127,10 @@ void *static_object(int which) {
 void with_automatic(int which, void (*run)(void *obj, void *ctx), void *ctx) {
   _Atomic unsigned char a8 = 0; _Atomic unsigned short a16 = 0; _Atomic unsigned int a32 = 0; _Atomic unsigned long a64 = 0;
   _Atomic signed char b8 = 0; _Atomic long b64 = 0;
+  struct BoxM abox = {}; _Atomic(bytep) ap64 = 0;
   switch (which) {
+  case 6: run(&abox.m, ctx); break;
+  case 7: run(&ap64, ctx); break;
   case 0: run(&a8, ctx); break;
   case 1: run(&a16, ctx); break;
   case 2: run(&a32, ctx); break;
